@@ -5,20 +5,17 @@ import "bytes"
 const alpha = "ABCDEFGHIJKLMNOPQRSTUVWXYZabcdefghijklmnopqrstuvwxyz0123456789-_"
 
 // Pat returns byte k of the body of request (or file, or response) i: bodies are a fixed printable pattern in
-// which every aligned 4-byte block encodes (i, k/4), so any window of 8 bytes identifies its origin.
+// which every aligned 4-byte block encodes a scrambled (i, k/4), so any window of 8 bytes identifies its origin.
 func Pat(i, k int) byte {
 	q := k / 4
-	v := (i&0x3f)<<18 | (q & 0x3ffff)
-	switch k % 4 {
-	case 0:
-		return alpha[(v>>18)&0x3f]
-	case 1:
-		return alpha[(v>>12)&0x3f]
-	case 2:
-		return alpha[(v>>6)&0x3f]
-	default:
-		return alpha[v&0x3f]
-	}
+	v := uint32((i&0x3f)<<18 | (q & 0x3ffff))
+	// scramble the 24-bit block value (multiplication by an odd constant is a bijection mod 2^24), so that all four
+	// bytes of a block depend on the offset: bytes a multiple of the block size apart differ almost always, and a
+	// stale or misplaced block is visible even when only a single byte of it is observed
+	v = (v * 0x9E3779B1) & 0xffffff
+	v ^= v >> 11
+	v = (v * 0x85EBCA6B) & 0xffffff
+	return alpha[(v>>(uint(k%4)*6))&0x3f]
 }
 
 // Fill writes Pat(i, a..b-1) into a new slice.
